@@ -29,6 +29,10 @@ func (sbpt SliceByPlaneTransformer) Transform(m modeling.Mesh) (results modeling
 		return
 	}
 
+	if err = RequireTopology(m, modeling.TriangleTopology); err != nil {
+		return
+	}
+
 	above, below := SliceByPlaneWithAttribute(m, sbpt.Plane, attribute)
 	if sbpt.SliceToKeep == AbovePlane {
 		return above, nil
@@ -37,7 +41,8 @@ func (sbpt SliceByPlaneTransformer) Transform(m modeling.Mesh) (results modeling
 }
 
 func SliceByPlaneWithAttribute(m modeling.Mesh, plane geometry.Plane, attribute string) (modeling.Mesh, modeling.Mesh) {
-	RequireTopology(m, modeling.TriangleTopology)
+	check(RequireTopology(m, modeling.TriangleTopology))
+	check(RequireV3Attribute(m, attribute))
 
 	originalIndices := m.Indices()
 	numFaces := originalIndices.Len() / 3
